@@ -145,6 +145,8 @@ type Options struct {
 	NoMetrics bool
 	// ShutdownTimeout overrides the 30 s drain (0 keeps the default).
 	ShutdownTimeout time.Duration
+	// ShutdownNoLimit selects the documented "0 = no limit" setting.
+	ShutdownNoLimit bool
 }
 
 type SUT struct {
@@ -204,6 +206,9 @@ func Start(env *core.Env, o Options) (*SUT, error) {
 	st := 30 * time.Second
 	if o.ShutdownTimeout > 0 {
 		st = o.ShutdownTimeout
+	}
+	if o.ShutdownNoLimit {
+		st = 0
 	}
 	forwarder.VerifSetShutdownTimeout(cfg, st)
 	s.Config = cfg
